@@ -287,6 +287,11 @@ PROPS = {
             {"name": "overflow", "harness": "c05", "driver": "c05", "quick_cases": 300, "thorough_cases": 5000,
              "gen_args": ["--mode", "overflow"], "nontrivial": _c05_nontrivial,
              "judge": lambda op, impl, spec: not ("PANIC" in impl or "HANG" in impl or impl == "bad-op")},
+            # store level: two real operations (iterator state, flush of one immutable memtable, memtable rotation, compaction
+            # manifest update) stopped after every nested lock acquisition, under every interleaving of those stops
+            {"name": "lockorder", "harness": "locks", "driver": "locks", "quick_cases": 70, "thorough_cases": 1000,
+             "nontrivial": lambda lines: any(l.startswith("pair") and l.split()[1] != l.split()[2] for l in lines),
+             "judge": pattern_judge, "timeout": 3000},
         ],
         "rule": "the real CommitPipeline over a mock environment under controlled schedules (as C05) with up to 14 commits per "
                 "case and a high rate of injected WAL/apply failures, so that failed batches pile up behind unapplied ones and "
